@@ -113,7 +113,11 @@ def check(case, cli=False):
                 f"{where}: records of file {suf} change when the queries without a record {[q['id'] for q in none]} are removed")
         cl.append("removal-checked")
     if cli:
-        c = pipeline.run_cli(case, cpus=case.get("cpus", 2))
+        # a third of the CLI runs receive the query CMAP on a pipe (a stream that cannot be rewound)
+        piped = (len(case["queries"]) + len(case["refs"][0]["labels"])) % 3 == 0
+        c = pipeline.run_cli(dict(case, stdin_query=True) if piped else case, cpus=case.get("cpus", 2))
+        if piped:
+            cl.append("query-on-a-pipe")
         req(not c.crashed, c.crash_signature or "cli-crash", f"{where}: CLI exit {c.returncode}: {c.crash_text}")
         check_wellformed(c, where + " (CLI)")
         for suf in run.raw:
